@@ -100,6 +100,8 @@ def gen(rng, tier):
     # revoked while accept() has been failing (EMFILE) for e retry rounds: the stop must not wait for a pause that
     # grew with the number of failures
     cases.append("acc 2 c F7")
+    # stopping must not wait for the logger: a global logger whose queue is full and undrained is installed first
+    cases += ["acc 2 c L r", "acc 1 L c c r c", "acc 3 L r"]
     if tier == "thorough":
         cases += ["acc 1 F1", "acc 1 F3", "acc 2 F4", "acc 3 c c c c F9 c", "acc 2 F12", "acc 2 F16"]
     # full server: each phase x 1..n connections (uniform), all slots idle, mixed phases
